@@ -436,8 +436,17 @@ func historyMain(x *X) {
 			merged := false
 			for j := range cur {
 				if sameL(cur[j].L, op.Append.L) {
-					cur[j].T = append(append([]int64{}, cur[j].T...), op.Append.T...)
-					cur[j].V = append(append([]store.F{}, cur[j].V...), op.Append.V...)
+					// the storage keeps only samples newer than the series' last (store.Append)
+					nt := append([]int64{}, cur[j].T...)
+					nv := append([]store.F{}, cur[j].V...)
+					for k, t := range op.Append.T {
+						if len(nt) > 0 && t <= nt[len(nt)-1] {
+							continue
+						}
+						nt = append(nt, t)
+						nv = append(nv, op.Append.V[k])
+					}
+					cur[j].T, cur[j].V = nt, nv
 					merged = true
 				}
 			}
